@@ -2,7 +2,7 @@ HARNESSES = {
     'ZeroRadius': dict(split={'smooth': 3}),
     'ZeroRadiusRel': dict(mode='X', validate=0),  # rounded-real reading: unknown at 60 s (nlsat); exact-real decides the algebra only
     'Segments': dict(skip=True),
-    'General': dict(mode='X', validate=0, split={'rot': 2, 'large': 2, 'sweep': 2}, opts=dict(feas_timeout_ms=300, ifconv=False)),
+    'General': dict(mode='X', validate=0, oracle=6, inproc_ms=2000, ext_s=20, split={'rot': 2, 'large': 2, 'sweep': 2}, opts=dict(feas_timeout_ms=300, ifconv=False)),
 }
 BOUNDS = {
     'ZeroRadius': 'bit exact: every float32 radius pair with a zero/NaN radius, every endpoint, viewBox, rectangle size up to 65536, pen; absolute form',
